@@ -99,6 +99,28 @@ def _construct(fn):
         return None, e
 
 
+_MARK = "a value the caller appended"
+
+
+def _own_empty_list(obj, make_other):
+    """multi-valued element constructed without a default: reports an empty list of its own."""
+    d = obj.default
+    if d != []:
+        return ("multi-valued-no-default-not-empty", [], repr(d))
+    d.append(_MARK)
+    try:
+        other, exc = _construct(make_other)
+        if other is not None and other.default != []:
+            return ("default-list-shared-between-objects", [], repr(other.default))
+        if other is not None:
+            _, e2 = _construct(lambda: other.set_default(None))
+            if e2 is None and other.default != []:
+                return ("default-list-shared-between-objects", [], repr(other.default))
+    finally:
+        d.remove(_MARK)
+    return None
+
+
 def check_option(case):
     """case = ["option", flags, short, default kind]"""
     from clikit.api.args.format.option import Option
@@ -148,6 +170,8 @@ def check_option(case):
         bad = ("multi-valued-without-required-value", None, f)
     elif o.is_multi_valued() and not isinstance(o.default, list):
         bad = ("multi-valued-default-not-list", "list", repr(o.default))
+    if bad is None and default is None and o.is_multi_valued():
+        bad = _own_empty_list(o, lambda: Option("other", short, flags, None, None))
     if bad is None:
         got, e2 = _construct(lambda: o.parse("1"))
         want = PROBE[types[0]]
@@ -208,6 +232,10 @@ def check_argument(case):
         bad = ("required-has-default", None, repr(a.default))
     elif a.is_multi_valued() and not isinstance(a.default, list):
         bad = ("multi-valued-default-not-list", "list", repr(a.default))
+    if bad is None and default is None and a.is_multi_valued():
+        # "a list default": its own, empty list - a caller that appends to the list it is handed must not change what
+        # another argument (constructed before or afterwards) reports
+        bad = _own_empty_list(a, lambda: Argument("other", flags, None, None))
     if bad is None:
         got, e2 = _construct(lambda: a.parse("1"))
         want = PROBE[types[0]]
